@@ -126,6 +126,17 @@ def replay(path, tag, variants, cfgflags, nshards=None):
 KF_HEX, KF_LZ4STR = 1000000, 1000001
 
 
+def kf_relevant(l):
+    """histories in which a table column `c` (the one the known-finding value classes make a hex-packed /
+    compressible packed string column) is ingested and a flush follows"""
+    b = json.loads(l)
+    for i, o in enumerate(b["ops"]):
+        if o["op"] == "ingest" and any(c["t"] == "ta" and "c" in c["names"] for c in b["reqDef"][o["req"] - 1]):
+            if any(x["op"] == "flush" for x in b["ops"][i + 1:]):
+                return True
+    return False
+
+
 def run(prop, tier, replay_path=None):
     t0 = time.time()
     build_harness()
@@ -157,13 +168,6 @@ def run(prop, tier, replay_path=None):
     # confirmation runs for the known findings that the ordinary value classes avoid on purpose
     kf_results = []
     if prop in ("C07", "C11"):
-        def kf_relevant(l):
-            b = json.loads(l)
-            for i, o in enumerate(b["ops"]):
-                if o["op"] == "ingest" and any(c["t"] == "ta" and "c" in c["names"] for c in b["reqDef"][o["req"] - 1]):
-                    if any(x["op"] == "flush" for x in b["ops"][i + 1:]):
-                        return True
-            return False
         sub = [l for l in behaviours if kf_relevant(l)][:48]
         kpath = path + ".kf"
         with open(kpath, "w") as f:
